@@ -299,3 +299,90 @@ Proof.
   destruct (deliver (ws k0) (length buf0)) as [w|] eqn:D; inversion E; subst; simpl; auto.
   split; auto. eapply deliver_le; eauto.
 Qed.
+
+(* ------------------------------------------------------------------ exact number of pwrite calls *)
+(* a pattern is tight when it does not end in a zero-length result: the loop stops as soon as the buffer is
+   exhausted, so the calls it makes are exactly the entries of a tight pattern *)
+Definition tight (pat : list nat) : Prop := last pat 1 <> 0.
+
+Lemma sum_zero_last : forall l, list_sum l = 0 -> l <> [] -> last l 1 = 0.
+Proof.
+  induction l as [|a l IH]; intros Hs Hn; [congruence|].
+  unfold list_sum in *. cbn [fold_right] in Hs. destruct l as [|b l].
+  - simpl. lia.
+  - change (last (a :: b :: l) 1) with (last (b :: l) 1). apply IH. lia. discriminate.
+Qed.
+
+Lemma tight_tail : forall w pat, tight (w :: pat) -> tight pat.
+Proof. intros w [|a pat] H; unfold tight in *. simpl. lia. exact H. Qed.
+
+Lemma loop1_exact : forall ws pat fuel retries k f off buf,
+  delivers ws k (length buf) pat -> list_sum pat = length buf -> retries + zeros pat < 3 -> tight pat ->
+  length buf + (3 - retries) <= fuel ->
+  fw_loop st1 (prim1 ws) fuel retries (k, f) off buf = Some ((k + length pat, pwrite_file f off buf), true).
+Proof.
+  intros ws pat; induction pat as [|w pat IH]; intros fuel retries k f off buf Hd Hs Hz Ht Hf.
+  - simpl in Hs. destruct buf; [|discriminate]. simpl. rewrite Nat.add_0_r.
+    destruct fuel; cbn [fw_loop]; replace (retries <? 3) with true; auto; symmetry; apply Nat.ltb_lt; unfold zeros in Hz; simpl in Hz; lia.
+  - destruct buf as [|x buf].
+    + exfalso. apply Ht. apply sum_zero_last. exact Hs. discriminate.
+    + destruct Hd as [Hd1 Hd2]. pose proof (deliver_le _ _ _ Hd1) as Hw.
+      rewrite zeros_cons in Hz.
+      destruct fuel as [|fuel]. { simpl in Hf. lia. }
+      cbn [fw_loop]. replace (3 <=? retries) with false by (symmetry; apply Nat.leb_gt; lia).
+      unfold prim1 at 1. rewrite Hd1.
+      rewrite (IH fuel (retries + (if w =? 0 then 1 else 0)) (Datatypes.S k)
+                  (pwrite_file f off (firstn w (x :: buf))) (off + w) (skipn w (x :: buf))).
+      * cbn [length]. do 3 f_equal. lia.
+        rewrite <- (firstn_length_le (x :: buf) Hw) at 2.
+        rewrite pwrite_file_app, firstn_skipn. reflexivity.
+      * now rewrite skipn_length.
+      * rewrite skipn_length. unfold list_sum in *. cbn [length fold_right] in *. lia.
+      * lia.
+      * eapply tight_tail; eauto.
+      * rewrite skipn_length. destruct (w =? 0) eqn:W.
+        -- apply Nat.eqb_eq in W; subst. cbn [length] in *. lia.
+        -- apply Nat.eqb_neq in W. cbn [length] in *. lia.
+Qed.
+
+Lemma file_write1_exact : forall ws pat k f off buf,
+  delivers ws k (length buf) pat -> list_sum pat = length buf -> zeros pat < 3 -> tight pat ->
+  file_write1 ws (k, f) off buf = ((k + length pat, pwrite_file f off buf), true).
+Proof.
+  intros ws pat k f off buf Hd Hs Hz Ht. unfold file_write1, file_write_gen.
+  rewrite (loop1_exact ws pat (length buf + 3) 0 k f off buf); auto; lia.
+Qed.
+
+(* ------------------------------------------------------------------ the loop over two primitives that simulate each other *)
+Section Simulation.
+  Variables S1 S2 : Type.
+  Variable prim_a : S1 -> nat -> list byte -> S1 * option nat.
+  Variable prim_b : S2 -> nat -> list byte -> S2 * option nat.
+  Variable R : S1 -> S2 -> Prop.
+  Hypothesis prim_sim : forall s1 s2 off buf, R s1 s2 ->
+    R (fst (prim_a s1 off buf)) (fst (prim_b s2 off buf)) /\ snd (prim_a s1 off buf) = snd (prim_b s2 off buf).
+
+  Lemma fw_loop_sim : forall fuel retries s1 s2 off buf, R s1 s2 ->
+    match fw_loop S1 prim_a fuel retries s1 off buf, fw_loop S2 prim_b fuel retries s2 off buf with
+    | Some (s1', b1), Some (s2', b2) => R s1' s2' /\ b1 = b2
+    | None, None => True
+    | _, _ => False
+    end.
+  Proof.
+    induction fuel as [|fuel IH]; intros retries s1 s2 off buf HR.
+    - destruct buf; cbn [fw_loop]; auto. destruct (3 <=? retries); auto.
+    - destruct buf as [|x buf]; cbn [fw_loop]; auto. destruct (3 <=? retries); auto.
+      destruct (prim_sim s1 s2 off (x :: buf) HR) as [HR' Hr].
+      destruct (prim_a s1 off (x :: buf)) as [s1' r1]. destruct (prim_b s2 off (x :: buf)) as [s2' r2].
+      cbn [fst snd] in *. subst r2. destruct r1 as [w|]; auto. apply IH; auto.
+  Qed.
+
+  Lemma file_write_gen_sim : forall s1 s2 off buf, R s1 s2 ->
+    R (fst (file_write_gen S1 prim_a s1 off buf)) (fst (file_write_gen S2 prim_b s2 off buf)) /\
+    snd (file_write_gen S1 prim_a s1 off buf) = snd (file_write_gen S2 prim_b s2 off buf).
+  Proof.
+    intros s1 s2 off buf HR. pose proof (fw_loop_sim (length buf + 3) 0 s1 s2 off buf HR) as H.
+    rewrite (file_write_gen_loop S1 prim_a), (file_write_gen_loop S2 prim_b) in H.
+    destruct (file_write_gen S1 prim_a s1 off buf), (file_write_gen S2 prim_b s2 off buf). exact H.
+  Qed.
+End Simulation.
